@@ -74,6 +74,16 @@ impl DocumentCursor {
             None
         }
     }
+
+    /// True, if the identifier is the name of the global declaration, that contains the cursor.
+    /// This name is not in the scope of the parameters and variables of the declaration,
+    /// so it must not be looked up in the local table.
+    fn is_context_name(&self, ident: &Ident) -> bool {
+        self.context.as_ref().map_or(false, |entry| {
+            let range = entry.to_range();
+            !range.is_empty() && entry.to_text_range(&self.doc.tokens[range]) == ident.range
+        })
+    }
 }
 
 async fn get_doc(uri: Url, doctx: Sender<DocumentRequest>) -> Result<Option<AnalyzedSource>> {
